@@ -215,9 +215,6 @@ Proof.
   destruct (if bad || good then Ok good else eval_mset tries a bm i m) as [g1|e]; [|reflexivity].
   destruct (negb (m_out m =? OutboundLogicalOr)); cbv zeta iota beta;
     destruct (negb (N.land (m_out m) OutboundLogicalMask =? OutboundLogicalMask)); rewrite ?IH; try reflexivity.
-  - destruct (negb (if Bool.eqb g1 (m_not m) then true else bad)); [|reflexivity].
-    destruct (m_out m =? OutboundMustRules); [apply IH|reflexivity].
-  - destruct (negb bad); [|reflexivity]. destruct (m_out m =? OutboundMustRules); [apply IH|reflexivity].
 Qed.
 
 Theorem Link_match_sets_trie :
@@ -237,3 +234,287 @@ Proof.
   unfold match_sets_trie, match_sets. cbn [mtt_sets mtt_lpm mt_sets mt_tries].
   destruct (b_rules b) as [|m0 ms0]; [reflexivity|]. now apply match_loop_trie_eq.
 Qed.
+
+(* ------------------------------------------------------------------------------------------------ *)
+(* Part 4: C12's side conditions follow from C01's wf_program                                         *)
+(* ------------------------------------------------------------------------------------------------ *)
+(* Every prefix the builder stores in simulatedLpmTries for a well-formed program is px_ok: ip / sip sets hold the
+   program's VCidr values (value_ok: address < 2^128, bits <= 32 and ::ffff:0:0/96 form for IPv4, bits <= 128 for
+   IPv6), canonicalised; MAC sets hold /128 prefixes of 48-bit numbers (and of 0 for a negated set). *)
+
+Lemma forallb_as_existsb {A} (f : A -> bool) l : forallb f l = negb (existsb (fun x => negb (f x)) l).
+Proof. induction l as [|x l IH]; [reflexivity|]. cbn [forallb existsb]. rewrite IH. destruct (f x); reflexivity. Qed.
+
+Lemma forallb_canonicalize (f : prefix128 -> bool) l : forallb f (canonicalize l) = forallb f l.
+Proof. now rewrite !forallb_as_existsb, existsb_canonicalize. Qed.
+
+Lemma tries_ok_app t1 t2 : tries_ok (t1 ++ t2) = tries_ok t1 && tries_ok t2.
+Proof. unfold tries_ok. apply forallb_app. Qed.
+
+Lemma add_ipset_tries t gs b neg vals ob b' :
+  add_ipset t gs b neg vals ob = Ok b' -> forallb px_ok vals = true ->
+  tries_ok (b_tries b) = true -> tries_ok (b_tries b') = true.
+Proof.
+  unfold add_ipset. intros H Hv Hb.
+  set (cv := canonicalize vals) in *. set (h := hash_lpm_set cv) in *.
+  assert (Hcv : forallb px_ok cv = true) by (unfold cv; now rewrite forallb_canonicalize).
+  assert (Hnew : tries_ok (b_tries (snd (new_trie b h cv))) = true).
+  { unfold new_trie. cbn [snd b_tries]. rewrite tries_ok_app, Hb. unfold tries_ok. cbn [forallb]. now rewrite Hcv. }
+  destruct (match dedup_get (b_dedup b) h with
+            | Some (eidx, eps) => if prefixes_equal eps cv then (eidx, b) else new_trie b h cv
+            | None => new_trie b h cv end) as [idx b1] eqn:E.
+  assert (Hb1 : tries_ok (b_tries b1) = true).
+  { destruct (dedup_get (b_dedup b) h) as [[eidx eps]|].
+    - destruct (prefixes_equal eps cv).
+      + inversion E; subst. exact Hb.
+      + rewrite E in Hnew. exact Hnew.
+    - rewrite E in Hnew. exact Hnew. }
+  destruct (outbound_to_id gs (po_name ob)); [|discriminate]. inversion H; subst. exact Hb1.
+Qed.
+
+Lemma add_mac_tries gs b neg macs ob b' :
+  add_mac gs b neg macs ob = Ok b' -> forallb (fun m => m <? 2 ^ 48) macs = true ->
+  tries_ok (b_tries b) = true -> tries_ok (b_tries b') = true.
+Proof.
+  unfold add_mac. intros H Hv Hb. destruct (outbound_to_id gs (po_name ob)); [|discriminate]. inversion H; subst.
+  cbn [append_rule b_tries]. rewrite tries_ok_app, Hb. unfold tries_ok. cbn [forallb andb]. rewrite andb_true_r.
+  rewrite forallb_forall. intros p Hp. apply in_map_iff in Hp. destruct Hp as [m [<- Hm]].
+  assert (Hm48 : m < 2 ^ 48).
+  { destruct neg.
+    - apply in_app_or in Hm. destruct Hm as [Hm|[<-|[]]]; [|reflexivity].
+      rewrite forallb_forall in Hv. specialize (Hv m Hm). lia.
+    - rewrite forallb_forall in Hv. specialize (Hv m Hm). lia. }
+  unfold px_ok. cbn [px_v4 px_addr px_bits].
+  assert (2 ^ 48 < 2 ^ 128) by (apply N.pow_lt_mono_r; lia). apply andb_true_iff. split; [lia|reflexivity].
+Qed.
+
+Lemma add_domain_tries gs b neg key vals ob b' : add_domain gs b neg key vals ob = Ok b' -> b_tries b' = b_tries b.
+Proof.
+  unfold add_domain. destruct ((1 <=? key) && (key <=? 4)); [|discriminate].
+  destruct (outbound_to_id gs (po_name ob)); [|discriminate]. intros H. inversion H; subst. reflexivity.
+Qed.
+
+Lemma add_mask_tries t gs b neg mask ob b' : add_mask t gs b neg mask ob = Ok b' -> b_tries b' = b_tries b.
+Proof.
+  unfold add_mask. destruct (outbound_to_id gs (po_name ob)); [|discriminate]. intros H. inversion H; subst. reflexivity.
+Qed.
+
+Lemma add_ports_tries t gs neg ob : forall vals b b', add_ports t gs b neg vals ob = Ok b' -> b_tries b' = b_tries b.
+Proof.
+  induction vals as [|[lo hi] vals IH]; intros b b' H; cbn [add_ports] in H.
+  - inversion H; subst. reflexivity.
+  - destruct (outbound_to_id gs (per_value_name ob vals)); [|discriminate]. apply IH in H. exact H.
+Qed.
+
+Lemma add_pnames_tries gs neg ob : forall vals b b', add_pnames gs b neg vals ob = Ok b' -> b_tries b' = b_tries b.
+Proof.
+  induction vals as [|v vals IH]; intros b b' H; cbn [add_pnames] in H.
+  - inversion H; subst. reflexivity.
+  - destruct (outbound_to_id gs (per_value_name ob vals)); [|discriminate]. apply IH in H. exact H.
+Qed.
+
+Lemma add_dscps_tries gs neg ob : forall vals b b', add_dscps gs b neg vals ob = Ok b' -> b_tries b' = b_tries b.
+Proof.
+  induction vals as [|v vals IH]; intros b b' H; cbn [add_dscps] in H.
+  - inversion H; subst. reflexivity.
+  - destruct (outbound_to_id gs (per_value_name ob vals)); [|discriminate]. apply IH in H. exact H.
+Qed.
+
+Lemma collect_prefix_ok (k : fkind) key : (k = FIp \/ k = FSip) ->
+  forall vals l, collect as_prefix vals = Some l -> Forall (fun v => value_ok k key v = true) vals ->
+  forallb px_ok l = true.
+Proof.
+  intros Hk. induction vals as [|v vals IH]; intros l Hc Hok; cbn [collect] in Hc.
+  - inversion Hc; subst. reflexivity.
+  - inversion Hok as [|? ? Hv Hr]; subst.
+    destruct (as_prefix v) as [x|] eqn:Ex; [|discriminate]. destruct (collect as_prefix vals) as [l'|]; [|discriminate].
+    inversion Hc; subst. cbn [forallb]. rewrite (IH l' eq_refl Hr), andb_true_r.
+    destruct v; try discriminate Ex. cbn in Ex. inversion Ex; subst. unfold px_ok. cbn [px_v4 px_addr px_bits].
+    destruct Hk as [-> | ->]; exact Hv.
+Qed.
+
+Lemma collect_mac_ok key :
+  forall vals l, collect as_mac vals = Some l -> Forall (fun v => value_ok FMac key v = true) vals ->
+  forallb (fun m => m <? 2 ^ 48) l = true.
+Proof.
+  induction vals as [|v vals IH]; intros l Hc Hok; cbn [collect] in Hc.
+  - inversion Hc; subst. reflexivity.
+  - inversion Hok as [|? ? Hv Hr]; subst.
+    destruct (as_mac v) as [x|] eqn:Ex; [|discriminate]. destruct (collect as_mac vals) as [l'|]; [|discriminate].
+    inversion Hc; subst. cbn [forallb]. rewrite (IH l' eq_refl Hr), andb_true_r.
+    destruct v; try discriminate Ex. cbn in Ex. inversion Ex; subst. exact Hv.
+Qed.
+
+Lemma parse_and_add_tries gs b k neg key vals ob b' :
+  parse_and_add gs b k neg key vals ob = Ok b' -> Forall (fun v => value_ok k key v = true) vals ->
+  tries_ok (b_tries b) = true -> tries_ok (b_tries b') = true.
+Proof.
+  intros H Hok Hb. unfold parse_and_add, with_values in H. destruct k.
+  - destruct (collect as_domain vals); [|discriminate]. apply add_domain_tries in H. now rewrite H.
+  - destruct (collect as_prefix vals) as [l|] eqn:E; [|discriminate].
+    eapply add_ipset_tries; [exact H| |exact Hb]. eapply (collect_prefix_ok FIp); eauto.
+  - destruct (collect as_prefix vals) as [l|] eqn:E; [|discriminate].
+    eapply add_ipset_tries; [exact H| |exact Hb]. eapply (collect_prefix_ok FSip); eauto.
+  - destruct (collect as_range vals); [|discriminate]. apply add_ports_tries in H. now rewrite H.
+  - destruct (collect as_range vals); [|discriminate]. apply add_ports_tries in H. now rewrite H.
+  - destruct (collect as_proto vals); [|discriminate]. apply add_mask_tries in H. now rewrite H.
+  - destruct (collect as_ver vals); [|discriminate]. apply add_mask_tries in H. now rewrite H.
+  - destruct (collect as_mac vals) as [l|] eqn:E; [|discriminate].
+    eapply add_mac_tries; [exact H| |exact Hb]. eapply collect_mac_ok; eauto.
+  - destruct (collect as_pname vals); [|discriminate]. apply add_pnames_tries in H. now rewrite H.
+  - destruct (collect as_dscp vals); [|discriminate]. apply add_dscps_tries in H. now rewrite H.
+Qed.
+
+Lemma apply_groups_tries gs k neg last_func ob : forall kgs b b',
+  apply_groups gs b k neg kgs last_func ob = Ok b' ->
+  (forall key vals, In (key, vals) kgs -> Forall (fun v => value_ok k key v = true) vals) ->
+  tries_ok (b_tries b) = true -> tries_ok (b_tries b') = true.
+Proof.
+  induction kgs as [|[key vals] kgs IH]; intros b b' H Hall Hb; cbn [apply_groups] in H.
+  - inversion H; subst. exact Hb.
+  - match type of H with match ?X with _ => _ end = _ => destruct X as [b1|] eqn:E1; [|discriminate] end.
+    apply (IH b1 b' H); [intros key' vals' Hin; apply Hall; now right|].
+    eapply parse_and_add_tries; [exact E1| |exact Hb]. apply Hall. now left.
+Qed.
+
+Lemma apply_funcs_tries gs ob : forall cs b b',
+  apply_funcs gs b cs ob = Ok b' -> forallb cond_ok cs = true ->
+  tries_ok (b_tries b) = true -> tries_ok (b_tries b') = true.
+Proof.
+  induction cs as [|c cs IH]; intros b b' H Hok Hb; cbn [apply_funcs] in H.
+  - inversion H; subst. exact Hb.
+  - cbn [forallb] in Hok. apply andb_true_iff in Hok. destruct Hok as [Hc Hcs].
+    match type of H with match ?X with _ => _ end = _ => destruct X as [b1|] eqn:E1; [|discriminate] end.
+    apply (IH b1 b' H Hcs). eapply apply_groups_tries; [exact E1| |exact Hb].
+    intros key vals Hin. unfold cond_ok in Hc. apply andb_true_iff in Hc. destruct Hc as [_ Hvals].
+    destruct (group_by_key_ok (c_params c)) as [Hs _]. destruct (Hs key vals Hin) as [_ Hsub].
+    apply Forall_forall. intros v Hv. rewrite forallb_forall in Hvals. apply (Hvals (key, v)). now apply Hsub.
+Qed.
+
+Lemma apply_rules_tries gs : forall rs b b',
+  apply_rules gs b rs = Ok b' -> Forall (fun r => forallb cond_ok (r_conds r) = true) rs ->
+  tries_ok (b_tries b) = true -> tries_ok (b_tries b') = true.
+Proof.
+  induction rs as [|r rs IH]; intros b b' H Hok Hb; cbn [apply_rules] in H.
+  - inversion H; subst. exact Hb.
+  - inversion Hok as [|? ? Hr Hrs]; subst.
+    match type of H with match ?X with _ => _ end = _ => destruct X as [b1|] eqn:E1; [|discriminate] end.
+    apply (IH b1 b' H Hrs). eapply apply_funcs_tries; eauto.
+Qed.
+
+Theorem Link_lowered_tries_ok :
+  forall (p : program) (b : builder), wf_program p = true -> lower_program p = Ok b -> tries_ok (b_tries b) = true.
+Proof.
+  intros p b Hwf Hl. unfold wf_program in Hwf. apply andb_true_iff in Hwf. destruct Hwf as [Hwf _].
+  apply andb_true_iff in Hwf. destruct Hwf as [_ Hrules].
+  unfold lower_program in Hl.
+  match type of Hl with match ?X with _ => _ end = _ => destruct X as [b1|] eqn:E1; [|discriminate] end.
+  unfold add_fallback in Hl. destruct (outbound_to_id _ _); [|discriminate]. inversion Hl; subst.
+  cbn [append_rule b_tries]. eapply apply_rules_tries; [exact E1| |reflexivity].
+  apply Forall_forall. intros r Hr. apply in_map_iff in Hr. destruct Hr as [r0 [<- Hr0]]. cbn [r_conds].
+  rewrite forallb_forall in Hrules. specialize (Hrules r0 Hr0). unfold rule_ok in Hrules.
+  apply andb_true_iff in Hrules. destruct Hrules as [Hrules _]. apply andb_true_iff in Hrules. now destruct Hrules.
+Qed.
+
+(* ------------------------------------------------------------------------------------------------ *)
+(* Part 5: the composed theorem                                                                       *)
+(* ------------------------------------------------------------------------------------------------ *)
+
+Lemma wf_packet_args pk : wf_packet pk = true -> args_ok (args_of_packet pk).
+Proof.
+  unfold wf_packet. rewrite !andb_true_iff. intros [[[[[[[H1 H2] _] _] _] _] H7] _].
+  unfold args_ok, args_of_packet. cbn [a_src a_dst a_mac16].
+  assert (2 ^ 48 < 2 ^ 128) by (apply N.pow_lt_mono_r; lia). lia.
+Qed.
+
+(* The route computed with C12's tries is the route of C01's model ... *)
+Theorem Link_route_trie_is_route :
+  forall (p : program) (pk : packet) (dm : string -> list N),
+    wf_program p = true -> wf_packet pk = true ->
+    model_route_trie p dm pk = model_route p dm pk.
+Proof.
+  intros p pk dm Hwf Hpk. unfold model_route_trie, model_route.
+  destruct (lower_program p) as [b|e] eqn:El; [|reflexivity].
+  apply Link_match_sets_trie; [now apply (Link_lowered_tries_ok p)|now apply wf_packet_args].
+Qed.
+
+(* ... hence the first-matching-rule decision of the program (C01_scan_lower).  The domain-oracle hypothesis of C01 is
+   kept as is (it is the interface to C11, discharged separately). *)
+Theorem Link_route_with_real_trie :
+  forall (p : program) (pk : packet) (dm : string -> list N),
+    wf_program p = true -> wf_packet pk = true -> C01_domain_oracle_agrees p dm pk ->
+    model_route_trie p dm pk = Ok (decide p pk).
+Proof.
+  intros p pk dm Hwf Hpk Hd. rewrite Link_route_trie_is_route by assumption. now apply C01_scan_lower.
+Qed.
+Print Assumptions Link_trie_is_covers.
+Print Assumptions Link_eval_mset_trie.
+Print Assumptions Link_lowered_tries_ok.
+Print Assumptions Link_route_with_real_trie.
+
+(* ------------------------------------------------------------------------------------------------ *)
+(* Part 6: non-vacuity, and the one place where the two models differ                                 *)
+(* ------------------------------------------------------------------------------------------------ *)
+
+(* C01's example program (all ten functions) routed through the C12 tries: an IPv4 /8 set, a negated IPv6 /32 set and
+   a negated MAC set are consulted; the hypotheses of the theorem hold for it. *)
+Example Link_C01_C12_nonvacuous :
+  let curl := ([99; 117; 114; 108] ++ repeat 0 12)%list in
+  wf_program ex_program = true /\
+  wf_packet (ex_pk 53 "www.example.com" 0 0xffff0a010203 curl 8) = true /\
+  (exists b, lower_program ex_program = Ok b /\ List.length (b_tries b) = 3%nat /\ tries_ok (b_tries b) = true) /\
+  model_route_trie ex_program (fun _ => [4]) (ex_pk 53 "www.example.com" 1 0xffff01020304 (repeat 0 16) 0) = Ok (2, 16, true) /\
+  model_route_trie ex_program (fun _ => []) (ex_pk 53 "www.example.com" 0 0xffff0a010203 curl 8) = Ok (1, 0, true) /\
+  model_route_trie ex_program (fun _ => []) (ex_pk 53 "www.example.com" 0 0xffff0b010203 curl 8) = Ok (0, 0, true).
+Proof.
+  cbv zeta. split; [vm_compute; reflexivity|]. split; [vm_compute; reflexivity|].
+  split; [eexists; split; [vm_compute; reflexivity|split; vm_compute; reflexivity]|].
+  repeat split; vm_compute; reflexivity.
+Qed.
+
+(* FINDING (about the models, not the code).  C01_scan_lower has no range hypothesis on the packet: C01's containment
+   `px_covers` is arithmetic on unbounded N.  The real lookup reads exactly 16 address bytes (As16 / bytes_be 16), so
+   for a "packet" whose address is not a 128-bit number the two disagree; wf_packet (C01_Spec's own range condition,
+   which C12 calls wf_addr) cannot be dropped from Link_route_with_real_trie.  Witness: rule dip(::/1) -> block, and
+   the out-of-range destination 2^128: the trie sees sixteen zero bytes (inside ::/1), px_covers compares
+   2^128 >> 127 = 2 with 0. *)
+Definition witness_prog : program :=
+  {| pr_rules := [ {| r_conds := [ {| c_kind := FIp; c_neg := false; c_params := [(0, VCidr false 0 1)] |} ];
+                      r_out := {| o_name := "block"; o_params := [] |} |} ];
+     pr_fallback := {| o_name := "direct"; o_params := [] |};
+     pr_groups := [("direct"%string, 0); ("block"%string, 1)] |}.
+
+Example Link_route_with_real_trie_needs_wf_packet :
+  let pk := ex_pk 80 "" 0 (2 ^ 128) (repeat 0 16) 0 in
+  let dm := fun _ : string => @nil N in
+  wf_program witness_prog = true /\ wf_packet pk = false /\ C01_domain_oracle_agrees witness_prog dm pk /\
+  model_route witness_prog dm pk = Ok (decide witness_prog pk) /\
+  decide witness_prog pk = (0, 0, false) /\
+  model_route_trie witness_prog dm pk = Ok (1, 0, false).
+Proof.
+  cbv zeta. split; [vm_compute; reflexivity|]. split; [vm_compute; reflexivity|].
+  split.
+  { intros b Hb. vm_compute in Hb. inversion Hb; subst. intros i key vals []. }
+  repeat split; vm_compute; reflexivity.
+Qed.
+
+(* WHAT IS DISCHARGED / WHAT REMAINS
+   Discharged: C01_Model's shortcut "lpm.HasPrefix(bin128(target)) = existsb (px_covers target) lpm" for the IpSet,
+     SourceIpSet and Mac match types.  model_route_trie builds the tries with C12_Model.build_userspace /
+     new_trie_from_prefixes / prefix2bin128 and queries them with C12_Model.has_prefix on C12_Model.probe_bin;
+     Link_trie_is_covers (from C12_Props.C12_trie_contains) + Link_eval_mset_trie + Link_lowered_tries_ok give
+     Link_route_with_real_trie.  C12's side conditions are all derived:
+       - forallb C12_Spec.wf_prefix on every stored set: from wf_program (value_ok of VCidr / VMac, through
+         canonicalize, the dedup table, add_mac's extra zero MAC) = Link_lowered_tries_ok + to12_wf;
+       - C12_Spec.wf_addr of the three targets: from wf_packet (p_src, p_dst < 2^128, p_mac < 2^48).
+   Adapters: px_ok (C01 prefix is the As16 image of a C12 prefix), to12 (IPv4: subtract ::ffff:0:0), to12_contains
+     (C12_Spec.contains (to12 p) x = px_covers x p for every x), trie_of / lookup_trie.
+   Used as stated: C01_Props.C01_scan_lower, C12_Props.C12_trie_contains.  From C01_Proofs (helper lemmas, not
+     property statements): existsb_canonicalize, existsb_map', group_by_key_ok.
+   Remaining hypotheses of Link_route_with_real_trie: wf_program p, wf_packet pk (new w.r.t. C01_scan_lower, necessary:
+     Link_route_with_real_trie_needs_wf_packet), C01_domain_oracle_agrees p dm pk (interface to C11, kept as is).
+   Remaining modelling shortcut (inside C12, not touched here): the succinct trie is the SET of its keys
+     (C12_Model.has_prefix = existsb is_prefix); the LOUDS bit-level structure is C11's. *)
+
+Print Assumptions Link_route_trie_is_route.
+Print Assumptions Link_route_with_real_trie.
